@@ -75,7 +75,14 @@ class Matcher:
             qual = f"{GL}.{self.translator_name}"
         self.fn = repo.func(qual)
         self.qual = qual
-        self.tr = Transducer(self.fn)
+        # module-level string constants may be emitted by name (`blocks.append(_ASTERISK_REGEX)`)
+        consts = {}
+        for st in repo.module(GL).tree.body:
+            if isinstance(st, (ast.Assign, ast.AnnAssign)) and isinstance(getattr(st, "value", None), ast.Constant) and isinstance(st.value.value, str):
+                for t in (st.targets if isinstance(st, ast.Assign) else [st.target]):
+                    if isinstance(t, ast.Name):
+                        consts[t.id] = st.value.value
+        self.tr = Transducer(self.fn, consts=consts)
 
     def _local(self, name: str):
         from ..rules import single_assign_value
